@@ -154,24 +154,43 @@ def run(ctx, proofs):
             form_kinds[k] = form_kinds.get(k, 0) + 1
             n_compound += 1
     # stage: content-carrying lifting mirror (Model.LiftFull) vs the real into_cfg
-    lf = liftfull_engine.run(common, ctx.rng, quick, extra_programs=liftfull_corpus())
+    lf_bound = 4 if quick else 6
+    lf = liftfull_engine.run(common, ctx.rng, quick, extra_programs=liftfull_corpus(), walk_bound=lf_bound)
     lf_dis, lf_wf, lf_thm = lf["disagreements"], lf["wf_failures"], lf["thm_failures"]
+    # third audit: the containment oracle on content-carrying definitions (templates, real leaf statements)
+    for d in lf["walk_failures"][:3]:
+        ctx.violation("the walk of the control-flow graph of a definition lifted by the production code does not contain the "
+                      "source execution: %s" % (d["bad"],),
+                      {"input": d["src"], "liftfull_src": d["src"], "bound": lf_bound, "impl": d["impl"], "spec": d["bad"],
+                       "definition": d["def"][:300]})
+    if lf["walk"]["definitions"] == 0 or lf["walk"]["not_evaluated"]:
+        ctx.violation("the containment oracle on content-carrying definitions was not evaluated on every lifted definition "
+                      "(%d evaluated; not evaluated: %s)" % (lf["walk"]["definitions"], lf["walk"]["not_evaluated"]),
+                      {"broken": "coverage of the check: trace / walk oracle of the liftfull stage", "walk": lf["walk"]},
+                      no_input=True)
+    # third audit: the source on which mirror and implementation disagree is at hand - it is reported as the failing
+    # input of the replay (it used to be a `no-failing-input-found` line although `liftfull_src` was in the record)
     for d in lf_dis[:3]:
-        ctx.violation("content-carrying lifting mirror Model.LiftFull and the real into_cfg disagree (%d definitions; %s mode, "
-                      "label %s): the theorems C13_liftfull_*, C04_liftfull_*, C08_liftfull_* speak about a model that is not "
-                      "the code" % (len(lf_dis), d["mode"], d["label"]),
-                      {"broken": "correspondence liftfull (Model.LiftFull vs control_flow_graph/lifting.rs + "
+        ctx.violation("content-carrying lifting mirror Model.LiftFull and the real into_cfg disagree on this source (%d definitions "
+                      "in all; %s mode, label %s; differs in: %s): the theorems C13_liftfull_*, C04_liftfull_*, C08_liftfull_* "
+                      "speak about a model that is not the code" % (len(lf_dis), d["mode"], d["label"], d.get("differs_in")),
+                      {"input": d["src"], "liftfull_src": d["src"],
+                       "impl": d.get("impl"), "spec": "Model.LiftFull.try_lift_impl (extracted) answers: %s" % (d.get("model"),),
+                       "broken": "correspondence liftfull (Model.LiftFull vs control_flow_graph/lifting.rs + "
                                  "intermediate_representation/lifting.rs + unique_vars.rs)",
-                       "liftfull_src": d["src"], "first": d, "count": len(lf_dis)}, no_input=True)
+                       "first": d, "count": len(lf_dis)})
     for d in lf_wf[:2]:
-        ctx.violation("a parsed and desugared definition does not satisfy LiftFull.definition_wf, the hypothesis of the "
-                      "totality theorem of the lifting mirror (%d definitions)" % len(lf_wf),
-                      {"broken": "hypothesis definition_wf", "liftfull_src": d["src"], "first": d}, no_input=True)
+        ctx.violation("a parsed and desugared definition does not satisfy %s, a hypothesis of the totality theorems of the "
+                      "lifting mirror (%d definitions)" % (d.get("hypothesis", "LiftFull.definition_wf"), len(lf_wf)),
+                      {"input": d["src"], "liftfull_src": d["src"], "impl": d.get("impl"),
+                       "spec": "the hypothesis holds on every body the real parser + desugarer hand on",
+                       "broken": "hypothesis " + d.get("hypothesis", "definition_wf"), "first": d})
     for d in lf_thm[:2]:
         ctx.violation("an equation proved about Model.LiftFull evaluates to false on the extracted model (%d definitions): %s"
                       % (len(lf_thm), d["flags"]),
-                      {"broken": "C13_liftfull_skeleton / C04_liftfull_stmt_metas_from_ast evaluated", "liftfull_src": d["src"],
-                       "first": d}, no_input=True)
+                      {"input": d["src"], "liftfull_src": d["src"], "impl": "flags of the model driver: %s" % (d["flags"],),
+                       "spec": "SK = 1 and PV = 1 (C13_liftfull_skeleton, C04_liftfull_stmt_metas_from_ast)",
+                       "broken": "C13_liftfull_skeleton / C04_liftfull_stmt_metas_from_ast evaluated", "first": d})
     for f in failing[:5]:
         ctx.violation("the walk of the control-flow graph does not contain the source execution: %s" % (f["spec"],), f)
     for f in form_failing[:5]:
@@ -244,6 +263,23 @@ def run(ctx, proofs):
             "definition_wf_evaluations": lf["stats"].get("distinct_desugared", 0),
             "definition_wf_failures": len(lf_wf),
             "theorem_equations_evaluated_false": len(lf_thm),
+            "error_reports": dict(lf["errors"], rule="on an error of into_cfg the REPORT it turns into (CFGError::into_report: code, "
+                                  "message with the name, primary label = location and file) is compared with "
+                                  "Model.LiftFullReport.param_collision_report, not only the kind; `invalid-name` carries no name / "
+                                  "location in the mirror and is compared by kind (unreachable from parsed sources: a name never "
+                                  "holds two dots); UndefinedVariableError is an answer of into_ssa, not of into_cfg (C14)"),
+            "statements_sharing_a_meta": dict(lf["shared_meta"], rule="per distinct desugared definition: do two statements that "
+                                              "become IR statements carry the same meta (LiftFullReport.stmt_metas_distinct_b = false)? "
+                                              "The by-meta theorems (C13_liftfull_skeleton, _cfg_contains_source*) do not order such "
+                                              "statements; C13_liftfull_content_provenance does"),
+            "hypothesis_desugared_shape": lf["shape"],
+            "containment_oracle": dict(lf["walk"], failures=len(lf["walk_failures"]),
+                                       rule="per distinct desugared definition that lifts: Spec.CfgSpec.trace_tree of its skeleton "
+                                            "(statements named by the proved-injective positional key, printed as start_end of the "
+                                            "meta) under every decision list up to `bound` must be contained in the walk of the REAL "
+                                            "graph printed by the harness (prefix; equal without return)"),
+            "c12_clauses_on_these_definitions": {"evaluated": lf["stats"].get("c12_views", 0), "failures": len(lf["c12_bad"]),
+                                                 "note": "filed under C12 (lib/props/C12.py runs the same evaluation); counted here"},
             "samples": lf["samples"][:1] if not lf_dis else lf_dis[:1],
         },
         "open_statements": [],   # C13_exhausted_equality is proved (coq/proofs/LiftExhausted.v)
@@ -267,15 +303,22 @@ def run(ctx, proofs):
         "generated definitions only; the parser and the desugarer in front of it are the real ones (their mirrors are C18's); "
         "DominatorTree::new, cache_variable_use and the expression-level part of propagate_types are not mirrored",
         "C13_liftfull_skeleton identifies a statement / condition by an arbitrary function of its META: two statements with "
-        "equal metas (the initialisers of one declaration list) get the same skeleton id, which the theorems of Model.Lift "
-        "allow (they never need distinct ids)",
+        "equal metas (the Declaration / Substitution statements one declaration list is split into, the statements a tuple or "
+        "anonymous-component statement is expanded into) get the same skeleton id and are not ordered by the by-meta theorems "
+        "(C13_liftfull_cfg_contains_source_injective_key says exactly what an injective key gives); their order is stated by "
+        "C13_liftfull_content_provenance (Forall2 image); how many definitions have such statements is counted "
+        "(liftfull.statements_sharing_a_meta)",
+        "the text of the reports of lifting (shadowing warning, parameter collision: code, message, labels) is "
+        "Model.LiftFullReport (Gallina), compared as text with CFGError::into_report on every run; the OCaml driver only prints",
     ]
 
 
 def replay(ctx, rep):
     if rep.get("liftfull_src"):
         print("source:", rep["liftfull_src"])
-        return 1 if liftfull_engine.replay_source(common, rep["liftfull_src"]) else 0
+        n = liftfull_engine.replay_source(common, rep["liftfull_src"])
+        n += liftfull_engine.replay_walk(common, rep["liftfull_src"], int(rep.get("bound") or 4))
+        return 1 if n else 0
     body = rep.get("body")
     if not body:
         print("replay names a broken obligation, not an input:", rep.get("broken"))
